@@ -34,7 +34,9 @@ Inductive case :=
 | CCheck (tbl : list (N * N * N)) (cfg : list key) (init : obs) (steps : list ostep)   (* correspondence only *)
 | CSpec (tbl : list (N * N * N)) (cfg : list key) (init : obs) (steps : list ostep)    (* specification only *)
   (* restart window: config, decoded disk, how the tombstone file read, rootKeys right after NewResolver *)
-| CWindow (tbl : list (N * N * N)) (cfg : list key) (d : obs) (tr : N) (sr : bool) (live : list key).
+| CWindow (tbl : list (N * N * N)) (cfg : list key) (d : obs) (tr : N) (sr : bool) (live : list key)
+  (* dnssec.KeyTag observed on a real DNSKEY: flags, protocol, algorithm, decoded public key octets, tag *)
+| CTag (flags proto alg : N) (material : list N) (tag : N).
 
 (* short constructors for the driver *)
 Definition K (m f : N) : key := mk_key m f.
@@ -308,12 +310,21 @@ Definition spec_hist (cfg : list key) (init : obs) (steps : list ostep) : bool :
 
 End Spec.
 
+(* RFC 4034 Appendix B, written from the RFC (not from the code): the 16-bit one's-complement-style
+   checksum over the RDATA flags | protocol | algorithm | public key *)
+Definition rfc4034_tag (flags proto alg : N) (material : list N) : N :=
+  let rdata := [N.shiftr flags 8; N.land flags 255; proto; alg] ++ material in
+  let ac := snd (fold_left (fun st b => let '(even, ac) := st in (negb even, if even then ac + b * 256 else ac + b))
+                           rdata (true, 0)) in
+  N.land (ac + N.land (N.shiftr ac 16) 65535) 65535.
+
 Definition check_case (c : case) : bool :=
   match c with
   | CHist tbl cfg init steps => check_hist tbl cfg init steps
   | CCheck tbl cfg init steps => check_hist tbl cfg init steps
   | CSpec _ _ _ _ => true
   | CWindow tbl cfg d tr sr live => keys_eqb (restart_live cfg (disk_of d) (tread_of_code tr) sr) live
+  | CTag flags proto alg material tag => keytag_of flags proto alg material =? tag
   end.
 
 Definition spec_case (c : case) : bool :=
@@ -326,4 +337,5 @@ Definition spec_case (c : case) : bool :=
   | CWindow tbl cfg d tr sr live =>
       forallb (fun k => negb (memN (k_mat k) (recorded d)) && key_in k cfg) live &&
       match tr with 0 => true | _ => is_nil live end && (negb sr || is_nil live)
+  | CTag flags proto alg material tag => rfc4034_tag flags proto alg material =? tag
   end.
